@@ -8,8 +8,9 @@ import subprocess
 V = os.path.dirname(os.path.dirname(os.path.abspath(__file__)))
 props = [json.loads(l) for l in open(os.path.join(V, "properties.jsonl"))]
 checks = []
+ready = set(open(os.path.join(V, "manifest.d", "ready.txt")).read().split())
 for f in sorted(os.listdir(os.path.join(V, "manifest.d"))):
-    if f.endswith(".json") and f.startswith("C"):
+    if f.endswith(".json") and f.startswith("C") and f[:-5] in ready:
         checks.append(json.load(open(os.path.join(V, "manifest.d", f))))
 claimed = {c["property_id"] for c in checks}
 na_reasons = {}
